@@ -1,5 +1,5 @@
 SPECIFICATION Spec2
 CONSTANTS
-  AssignRule = "strict"
+  AssignRule = "numpy"
   CfgSpace <- Small
 INVARIANT Factorises
